@@ -124,6 +124,86 @@ func (c *c06ctx) p1b(f *ssa.Function) {
 	}
 }
 
+// p1c: a request-JSON value used as the key of a map[interface{}]… is hashed
+// at run time; a list or an object is unhashable and the access panics.  The
+// access must be dominated by tests that exclude both kinds
+// (reflect Kind != Slice and != Map, or a type switch / assertion to a scalar).
+func (c *c06ctx) p1c(f *ssa.Function) {
+	fkey := core.SSAKey(f)
+	n := 0
+	kindConst := func(v ssa.Value) (int64, bool) {
+		k, ok := v.(*ssa.Const)
+		if !ok || k.Value == nil {
+			return 0, false
+		}
+		if nn, ok := k.Type().(*types.Named); !ok || nn.Obj().Pkg() == nil || nn.Obj().Pkg().Path() != "reflect" || nn.Obj().Name() != "Kind" {
+			return 0, false
+		}
+		i, ok := constant.Int64Val(k.Value)
+		return i, ok
+	}
+	const kindMap, kindSlice = 21, 23 // reflect.Map, reflect.Slice
+	for _, b := range f.Blocks {
+		for _, in := range b.Instrs {
+			var key ssa.Value
+			var pos token.Pos
+			switch x := in.(type) {
+			case *ssa.MapUpdate:
+				key, pos = x.Key, x.Pos()
+			case *ssa.Lookup:
+				if _, isMap := x.X.Type().Underlying().(*types.Map); isMap {
+					key, pos = x.Index, x.Pos()
+				}
+			}
+			if key == nil {
+				continue
+			}
+			it, ok := key.Type().Underlying().(*types.Interface)
+			if !ok || !it.Empty() {
+				continue
+			}
+			// a scalar boxed on the spot is hashable
+			if mi, ok := key.(*ssa.MakeInterface); ok {
+				if _, basic := mi.X.Type().Underlying().(*types.Basic); basic {
+					continue
+				}
+			}
+			src := clientJSON(key, 0, map[ssa.Value]bool{})
+			if src == "" {
+				continue
+			}
+			n++
+			c.res.CallSites++
+			k := fmt.Sprintf("%s|mapkey#%d", fkey, n)
+			noMap, noSlice := false, false
+			for _, fct := range domFacts(b) {
+				bo, ok := fct.Cond.(*ssa.BinOp)
+				if !ok {
+					continue
+				}
+				for _, side := range []ssa.Value{bo.X, bo.Y} {
+					kv, isK := kindConst(side)
+					if !isK {
+						continue
+					}
+					excluded := (bo.Op == token.NEQ && fct.Truth) || (bo.Op == token.EQL && !fct.Truth)
+					if excluded && kv == kindMap {
+						noMap = true
+					}
+					if excluded && kv == kindSlice {
+						noSlice = true
+					}
+				}
+			}
+			if noMap && noSlice {
+				c.res.OK("P1", k, c.p.Pos(pos), "map key derived from request JSON is used only after its kind was tested not to be a list or an object")
+			} else {
+				c.res.Bad("P1", k, c.p.Pos(pos), fmt.Sprintf("%s uses a value derived from %s as the key of a map with interface keys at %s without excluding lists and objects (excluded: list %v, object %v): such a value is unhashable and the access panics (hash of unhashable type), which ends the process", fkey, src, c.p.Pos(pos), noSlice, noMap))
+			}
+		}
+	}
+}
+
 // clientJSON traces an interface{} value back to a source of request JSON
 // ("" = none found): structpb accessors, the jsonpath lookups, element data.
 func clientJSON(v ssa.Value, depth int, seen map[ssa.Value]bool) string {
@@ -1098,6 +1178,7 @@ func c06(p *core.Prog, res *core.Result) {
 		res.Fn(core.SSAKey(f))
 		c.p1(f)
 		c.p1b(f)
+		c.p1c(f)
 		c.p2(f)
 		c.p3(f, exempt)
 		for _, b := range f.Blocks {
@@ -1168,6 +1249,7 @@ func c06selftest(st *core.Prog, res *core.Result) {
 		c.res = tmp
 		c.p1(f)
 		c.p1b(f)
+		c.p1c(f)
 		c.p2(f)
 		c.p3(f, nil)
 		if f.Parent() == nil {
